@@ -18,6 +18,7 @@ macro_rules! dispatch {
             "C03" => $f(props::c03::C03, $($arg),*),
             "C04" => $f(props::c04::C04, $($arg),*),
             "C05" => $f(props::c05::C05, $($arg),*),
+            "C06" => $f(props::c06::C06, $($arg),*),
             "C07" => $f(props::c07::C07, $($arg),*),
             _ => { eprintln!("unknown property {}", $id); 2 }
         }
